@@ -100,20 +100,20 @@ def run_check(repo, chk: Check, tier, prefix):
     try:
         chk.fn(H)
     except Unsupported as e:
-        return [{"name": f"{prefix}.{chk.name}", "function": chk.functions[0], "backend": "pyvc", "result": "undecided",
+        return [{"name": f"{prefix}.{chk.name}", "function": (chk.functions[0] if chk.functions else "(theory lemma)"), "backend": "pyvc", "result": "undecided",
                  "reason": f"outside the supported subset: {e}", "ms": int((time.time() - t0) * 1000), "kind": chk.kind}], funcs, H
     except z3.Z3Exception as e:
-        return [{"name": f"{prefix}.{chk.name}", "function": chk.functions[0], "backend": "pyvc", "result": "undecided",
+        return [{"name": f"{prefix}.{chk.name}", "function": (chk.functions[0] if chk.functions else "(theory lemma)"), "backend": "pyvc", "result": "undecided",
                  "reason": f"encoding error: {e}", "ms": int((time.time() - t0) * 1000), "kind": chk.kind}], funcs, H
     except (KeyError, AttributeError, TypeError, IndexError, ValueError, AssertionError, RecursionError) as e:
         # the sidecar contract (loop invariant, spec builder) no longer matches the shape of the code (renamed local,
         # restructured loop, different value kinds): the obligations cannot be generated -> undecided, never a violation
         tb = traceback.format_exc().strip().splitlines()
-        return [{"name": f"{prefix}.{chk.name}", "function": chk.functions[0], "backend": "pyvc", "result": "undecided",
+        return [{"name": f"{prefix}.{chk.name}", "function": (chk.functions[0] if chk.functions else "(theory lemma)"), "backend": "pyvc", "result": "undecided",
                  "reason": f"sidecar contract does not match the current code: {type(e).__name__}: {e} ({tb[-3].strip() if len(tb) > 2 else ''})",
                  "ms": int((time.time() - t0) * 1000), "kind": chk.kind}], funcs, H
     if not H.obligations:
-        return [{"name": f"{prefix}.{chk.name}", "function": chk.functions[0], "backend": "pyvc", "result": "undecided",
+        return [{"name": f"{prefix}.{chk.name}", "function": (chk.functions[0] if chk.functions else "(theory lemma)"), "backend": "pyvc", "result": "undecided",
                  "reason": "vacuity guard: the check generated zero obligations", "ms": 0, "kind": chk.kind}], funcs, H
     # group obligation instances by name
     groups = {}
@@ -164,7 +164,7 @@ def run_check(repo, chk: Check, tier, prefix):
             res = _agg(results)
         meta = insts[0].meta
         full = name if name.startswith(prefix + ".") or name.startswith("C") and name[3:4] == "." else f"{prefix}.{chk.name}:{name}"
-        rec = {"name": full, "function": meta.get("function", chk.functions[0]), "backend": "z3" + ("+cvc5" if tier == "thorough" else ""),
+        rec = {"name": full, "function": meta.get("function", chk.functions[0] if chk.functions else "(theory lemma)"), "backend": "z3" + ("+cvc5" if tier == "thorough" else ""),
                "result": res if res in ("discharged", "refuted") else "undecided", "ms": ms, "kind": chk.kind,
                "instances": len(insts), "vacuous_instances": vac, "replay_keys": chk.replay_keys, "focus": chk.focus}
         if res == "refuted":
@@ -176,7 +176,7 @@ def run_check(repo, chk: Check, tier, prefix):
             rec["cvc5"] = info["cvc5"]
         out.append(rec)
     if not out:
-        out.append({"name": f"{prefix}.{chk.name}", "function": chk.functions[0], "backend": "pyvc", "result": "undecided",
+        out.append({"name": f"{prefix}.{chk.name}", "function": (chk.functions[0] if chk.functions else "(theory lemma)"), "backend": "pyvc", "result": "undecided",
                     "reason": "vacuity guard: every generated obligation sits on an infeasible path", "ms": 0, "kind": chk.kind})
     return out, funcs, H
 
